@@ -22,37 +22,47 @@ Lemma work_ahead_wa : forall t c k, work_ahead t c k <-> wa c (slot_of t k).
 Proof. intros. reflexivity. Qed.
 
 (* the slot of a key under any number of user writes made while the table revision was >= c0:
-   unchanged | a deletion or a Pending/Refreshing object at a revision above c0 | the same live object
-   re-stamped at a revision above c0 (status-only user write) *)
+   unchanged | a deletion or a Pending/Refreshing object at a revision above c0 | the live object
+   re-stamped at a revision above c0 with only the other writers' data changed (status write of another
+   reconciler) *)
+Definition same_ours (o o' : obj) : Prop :=
+  o_pk o' = o_pk o /\ o_ver o' = o_ver o /\ o_kind o' = o_kind o /\ o_sid o' = o_sid o.
+Lemma same_ours_refl : forall o, same_ours o o.
+Proof. intro o. repeat split. Qed.
+Lemma same_ours_trans : forall a b c, same_ours a b -> same_ours b c -> same_ours a c.
+Proof. intros a b c [A1 [A2 [A3 A4]]] [B1 [B2 [B3 B4]]]. repeat split; congruence. Qed.
+Lemma same_ours_pending : forall o o', same_ours o o' -> is_pending o' = is_pending o.
+Proof. intros o o' [_ [_ [A _]]]. unfold is_pending. rewrite A. reflexivity. Qed.
+
 Inductive kstep (c0 : N) : option slot -> option slot -> Prop :=
 | ks_same : forall s, kstep c0 s s
 | ks_new : forall s sl, c0 < slot_rev sl -> slot_act sl = true -> kstep c0 s (Some sl)
-| ks_re : forall o r r', c0 < r' -> kstep c0 (Some (Live o r)) (Some (Live o r')).
+| ks_re : forall o o' r r', c0 < r' -> same_ours o o' -> kstep c0 (Some (Live o r)) (Some (Live o' r')).
 
 Lemma kstep_trans : forall c0 a b c, kstep c0 a b -> kstep c0 b c -> kstep c0 a c.
 Proof.
-  intros c0 a b c H1 H2. destruct H2 as [s|s sl A B|o r r' A].
+  intros c0 a b c H1 H2. destruct H2 as [s|s sl A B|o o' r r' A SO].
   - exact H1.
   - apply ks_new; assumption.
-  - inversion H1 as [s E1 E2|s sl A1 B1 E1 E2|o0 r0 r1 A1 E1 E2]; subst.
-    + apply ks_re. exact A.
-    + apply ks_new; [cbn; exact A|exact B1].
-    + apply ks_re. exact A.
+  - inversion H1 as [s E1 E2|s sl A1 B1 E1 E2|o0 o1 r0 r1 A1 SO1 E1 E2]; subst.
+    + apply ks_re; assumption.
+    + apply ks_new; [cbn; exact A|]. cbn in *. rewrite (same_ours_pending _ _ SO). exact B1.
+    + apply ks_re; [exact A|apply (same_ours_trans _ _ _ SO1 SO)].
 Qed.
 
 Lemma kstep_mono : forall c0 c1 a b, c0 <= c1 -> kstep c1 a b -> kstep c0 a b.
 Proof.
-  intros c0 c1 a b H K. destruct K as [s|s sl A B|o r r' A]; [apply ks_same|apply ks_new; [lia|exact B]|apply ks_re; lia].
+  intros c0 c1 a b H K. destruct K as [s|s sl A B|o o' r r' A SO]; [apply ks_same|apply ks_new; [lia|exact B]|apply ks_re; [lia|exact SO]].
 Qed.
 
 Lemma kstep_inv : forall c0 s s', kstep c0 s s' ->
   s' = s \/ (exists sl, s' = Some sl /\ c0 < slot_rev sl /\ slot_act sl = true) \/
-  (exists o r r', s = Some (Live o r) /\ s' = Some (Live o r') /\ c0 < r').
+  (exists o o' r r', s = Some (Live o r) /\ s' = Some (Live o' r') /\ c0 < r' /\ same_ours o o').
 Proof.
-  intros c0 s s' K. destruct K as [s|s sl A B|o r r' A].
+  intros c0 s s' K. destruct K as [s|s sl A B|o o' r r' A SO].
   - left. reflexivity.
   - right. left. exists sl. repeat split; assumption.
-  - right. right. exists o, r, r'. repeat split; assumption.
+  - right. right. exists o, o', r, r'. split; [reflexivity|]. split; [reflexivity|]. split; assumption.
 Qed.
 
 (* the table moved from t0 to t by user writes only *)
@@ -79,12 +89,12 @@ Proof.
   - rewrite slot_insert_other by exact E. apply S.
 Qed.
 
-Lemma tstep_restamp : forall t0 t o r, slot_of t (o_pk o) = Some (Live o r) -> tstep t0 t -> tstep t0 (t_insert t o).
+Lemma tstep_restamp : forall t0 t o r, slot_of t (o_pk o) = Some (Live o r) -> tstep t0 t -> tstep t0 (t_insert t (bump_aux o)).
 Proof.
   intros t0 t o r Hs [K [R S]]. split; [apply keyed_insert; exact K|]. split; [cbn; lia|]. intro k.
-  destruct (N.eq_dec k (o_pk o)) as [E|E].
+  destruct (N.eq_dec k (o_pk (bump_aux o))) as [E|E].
   - subst k. rewrite slot_insert_same. apply (kstep_trans _ _ (slot_of t (o_pk o))); [apply S|].
-    rewrite Hs. apply ks_re. lia.
+    rewrite Hs. apply ks_re; [lia|repeat split].
   - rewrite slot_insert_other by exact E. apply S.
 Qed.
 
@@ -202,22 +212,24 @@ Definition dead_at (t : table) (k r : N) : Prop := exists o, slot_of t k = Some 
 
 Lemma kstep_wa : forall c0 c s s', kstep c0 s s' -> c <= c0 -> wa c s -> wa c s'.
 Proof.
-  intros c0 c s s' K Hc W. destruct K as [s|s sl A B|o r r' A].
+  intros c0 c s s' K Hc W. destruct K as [s|s sl A B|o o' r r' A SO].
   - exact W.
   - exists sl. split; [reflexivity|]. split; [lia|exact B].
-  - destruct W as [sl [E [L Ac]]]. injection E as E. subst sl. exists (Live o r'). split; [reflexivity|]. split; [cbn; lia|exact Ac].
+  - destruct W as [sl [E [L Ac]]]. injection E as E. subst sl. exists (Live o' r'). split; [reflexivity|]. split; [cbn; lia|].
+    cbn in *. rewrite (same_ours_pending _ _ SO). exact Ac.
 Qed.
 
 (* a key that has no work ahead after the writes had none before, kept its payload, and existed *)
 Lemma kstep_settled : forall c0 c s s' sl', kstep c0 s s' -> c <= c0 -> s' = Some sl' -> ~ wa c s' ->
   ~ wa c s /\ exists sl, s = Some sl /\ pay sl = pay sl'.
 Proof.
-  intros c0 c s s' sl' K Hc E NW. destruct K as [s|s sl A B|o r r' A].
+  intros c0 c s s' sl' K Hc E NW. destruct K as [s|s sl A B|o o' r r' A SO].
   - split; [exact NW|]. exists sl'. split; [exact E|reflexivity].
   - exfalso. apply NW. exists sl. split; [reflexivity|]. split; [lia|exact B].
   - injection E as E. subst sl'. split.
-    + intros [sl [E1 [L Ac]]]. injection E1 as E1. subst sl. apply NW. exists (Live o r'). split; [reflexivity|]. split; [cbn; lia|exact Ac].
-    + exists (Live o r). split; reflexivity.
+    + intros [sl [E1 [L Ac]]]. injection E1 as E1. subst sl. apply NW. exists (Live o' r'). split; [reflexivity|]. split; [cbn; lia|].
+      cbn in *. rewrite (same_ours_pending _ _ SO). exact Ac.
+    + exists (Live o r). split; [reflexivity|]. destruct SO as [_ [V _]]. cbn. rewrite V. reflexivity.
 Qed.
 
 Lemma tstep_work_ahead : forall t t' c k, tstep t t' -> c <= t_rev t -> work_ahead t c k -> work_ahead t' c k.
@@ -226,16 +238,17 @@ Proof. intros t t' c k [_ [_ S]] Hc W. apply (kstep_wa _ _ _ _ (S k) Hc W). Qed.
 Lemma tstep_err_live : forall t t' c k, tstep t t' -> c <= t_rev t -> err_live t k -> err_live t' k \/ work_ahead t' c k.
 Proof.
   intros t t' c k [_ [_ S]] Hc [o [r [A B]]].
-  destruct (kstep_inv _ _ _ (S k)) as [E|[[sl [E [X Y]]]|[o0 [r0 [r1 [E1 [E2 X]]]]]]].
+  destruct (kstep_inv _ _ _ (S k)) as [E|[[sl [E [X Y]]]|[o0 [o1 [r0 [r1 [E1 [E2 [X SO]]]]]]]]].
   - left. exists o, r. rewrite E. split; assumption.
   - right. exists sl. split; [exact E|]. split; [lia|exact Y].
-  - rewrite A in E1. injection E1 as E1 E3. subst o0 r0. left. exists o, r1. split; assumption.
+  - rewrite A in E1. injection E1 as E1 E3. subst o0 r0. left. exists o1, r1. split; [exact E2|].
+    destruct SO as [_ [_ [Kd _]]]. rewrite Kd. exact B.
 Qed.
 
 Lemma tstep_dead_at : forall t t' c k r, tstep t t' -> c <= t_rev t -> dead_at t k r -> dead_at t' k r \/ work_ahead t' c k.
 Proof.
   intros t t' c k r [_ [_ S]] Hc [o A].
-  destruct (kstep_inv _ _ _ (S k)) as [E|[[sl [E [X Y]]]|[o0 [r0 [r1 [E1 [E2 X]]]]]]].
+  destruct (kstep_inv _ _ _ (S k)) as [E|[[sl [E [X Y]]]|[o0 [o1 [r0 [r1 [E1 [E2 [X SO]]]]]]]]].
   - left. exists o. rewrite E. exact A.
   - right. exists sl. split; [exact E|]. split; [lia|exact Y].
   - rewrite A in E1. discriminate.
@@ -247,10 +260,11 @@ Lemma tstep_act_rel : forall snap t k sl, tstep snap t -> slot_of snap k = Some 
   slot_of t k = Some sl \/ work_ahead t (t_rev snap) k.
 Proof.
   intros snap t k sl [_ [_ S]] A B.
-  destruct (kstep_inv _ _ _ (S k)) as [E|[[sl' [E [X Y]]]|[o0 [r0 [r1 [E1 [E2 X]]]]]]].
+  destruct (kstep_inv _ _ _ (S k)) as [E|[[sl' [E [X Y]]]|[o0 [o1 [r0 [r1 [E1 [E2 [X SO]]]]]]]]].
   - left. rewrite E. exact A.
   - right. exists sl'. split; [exact E|]. split; [exact X|exact Y].
-  - right. rewrite A in E1. injection E1 as E1. subst sl. exists (Live o0 r1). split; [exact E2|]. split; [exact X|exact B].
+  - right. rewrite A in E1. injection E1 as E1. subst sl. exists (Live o1 r1). split; [exact E2|]. split; [exact X|].
+    cbn in *. rewrite (same_ours_pending _ _ SO). exact B.
 Qed.
 
 Lemma work_ahead_lower : forall t c c' k, c' <= c -> work_ahead t c k -> work_ahead t c' k.
@@ -303,13 +317,14 @@ Lemma good_tstep : forall t t' c r, tstep t t' -> c <= t_rev t -> good t c r -> 
 Proof.
   intros t t' c r TS Hc [W|[cur [rv [A B]]]]; [left; apply (tstep_work_ahead _ _ _ _ TS Hc W)|].
   pose proof TS as [_ [_ S]].
-  destruct (kstep_inv _ _ _ (S (o_pk (r_obj r)))) as [E|[[sl [E [X Y]]]|[o0 [r0 [r1 [E1 [E2 X]]]]]]].
+  destruct (kstep_inv _ _ _ (S (o_pk (r_obj r)))) as [E|[[sl [E [X Y]]]|[o0 [o1 [r0 [r1 [E1 [E2 [X SO]]]]]]]]].
   - right. exists cur, rv. rewrite E. split; [exact A|exact B].
   - left. exists sl. split; [exact E|]. split; [lia|exact Y].
-  - rewrite A in E1. injection E1 as E1 E3. subst o0 r0. destruct B as [[B1 B2]|[B|B]].
-    + left. exists (Live cur r1). split; [exact E2|]. split; [cbn; lia|exact B1].
-    + right. exists cur, r1. split; [exact E2|right; left; exact B].
-    + right. exists cur, r1. split; [exact E2|right; right; exact B].
+  - rewrite A in E1. injection E1 as E1 E3. subst o0 r0. pose proof (same_ours_pending _ _ SO) as SP.
+    destruct SO as [_ [_ [Kd Sd]]]. destruct B as [[B1 B2]|[B|B]].
+    + left. exists (Live o1 r1). split; [exact E2|]. split; [cbn; lia|cbn; rewrite SP; exact B1].
+    + right. exists o1, r1. split; [exact E2|right; left; rewrite Kd, Sd; exact B].
+    + right. exists o1, r1. split; [exact E2|right; right; rewrite Kd; exact B].
 Qed.
 
 Lemma res_good_tstep : forall t t' c res, tstep t t' -> c <= t_rev t -> res_good t c res -> res_good t' c res.
@@ -782,16 +797,17 @@ Proof.
   intros f c now t q r rest t1 q1 tg U Hc ND SI RO [T RT G DI RD OKC] H.
   pose proof SI as [Wt _]. pose proof (twf_keyed _ Wt) as K.
   destruct (commit_one_spec _ _ _ _ _ _ _ _ K H) as [Ho [Hcs Hq]].
+  pose proof (queued_pk t r K) as Qk.
   set (pk := o_pk (r_obj r)) in *.
   cbn [res_pks map] in ND. fold pk in ND. inversion ND as [|x xs Hx Hr]; subst x xs.
   assert (NotRest : forall r', In r' rest -> o_pk (r_obj r') <> pk).
   { intros r' Hin Heq. apply Hx. rewrite <- Heq. apply (in_map (fun r => o_pk (r_obj r))). exact Hin. }
   assert (QO : forall it, In it (q_items q) -> ri_pk it <> pk -> In it (q_items q1)).
-  { intros it Hi Hne. rewrite Hq. destruct (negb (r_ok r) && wrote t t1); [apply in_add_other; assumption|exact Hi]. }
+  { intros it Hi Hne. rewrite Hq. destruct (negb (r_ok r) && wrote t t1); [apply in_add_other; [assumption|rewrite Qk; assumption]|exact Hi]. }
   assert (QI : forall it, In it (q_items q1) -> In it (q_items q) \/ (ri_pk it = pk /\ ri_del it = false)).
   { intros it Hi. rewrite Hq in Hi. destruct (negb (r_ok r) && wrote t t1); [|left; exact Hi].
     apply (in_add_items _ _ _ _ _ _ _ U) in Hi. destruct Hi as [[I1 [_ [_ [I4 _]]]]|[I1 _]]; [right|left; exact I1].
-    split; [unfold ri_pk; rewrite I1; reflexivity|exact I4]. }
+    split; [unfold ri_pk; rewrite I1; exact Qk|exact I4]. }
   constructor.
   - (* target = table *)
     intros k sl A B C D. destruct (N.eq_dec k pk) as [E|E].
@@ -809,14 +825,14 @@ Proof.
     + rewrite B1 in A. injection A as A. subst sl. cbn [pay with_status o_ver].
       destruct (r_ok r) eqn:Eok; [apply (RT r (or_introl eq_refl) Eok)|].
       exfalso. assert (Wr : wrote t t1 = true) by (unfold wrote; rewrite C1; apply N.eqb_refl).
-      rewrite Wr in Hq. cbn [negb andb] in Hq. destruct (add_has_item q (r_obj r) (t_rev t1) (r_orig r) false now) as [it [Y1 Y2]].
-      rewrite <- Hq in Y1. apply (C it Y1 Y2).
+      rewrite Wr in Hq. cbn [negb andb] in Hq. destruct (add_has_item q (queued t r) (t_rev t1) (r_orig r) false now) as [it [Y1 Y2]].
+      rewrite <- Hq in Y1. rewrite Qk in Y2. apply (C it Y1 Y2).
     + rewrite B1 in A. injection A as A. subst sl. cbn [pay with_status o_ver].
       destruct (r_ok r) eqn:Eok.
       * rewrite (fallback_same_ver f t q true r cur rv0 SI RO A1 A3). apply (RT r (or_introl eq_refl) Eok).
       * exfalso. assert (Wr : wrote t t1 = true) by (unfold wrote; rewrite C1; apply N.eqb_refl).
-        rewrite Wr in Hq. cbn [negb andb] in Hq. destruct (add_has_item q (r_obj r) (t_rev t1) (r_orig r) false now) as [it [Y1 Y2]].
-        rewrite <- Hq in Y1. apply (C it Y1 Y2).
+        rewrite Wr in Hq. cbn [negb andb] in Hq. destruct (add_has_item q (queued t r) (t_rev t1) (r_orig r) false now) as [it [Y1 Y2]].
+        rewrite <- Hq in Y1. rewrite Qk in Y2. apply (C it Y1 Y2).
   - intros r' Hr' Hok. apply (RT r' (or_intror Hr') Hok).
   - intros r' Hr'. apply (good_ext t); [apply Ho; apply NotRest; exact Hr'|apply G; right; exact Hr'].
   - intros it Hi Hd. destruct (QI it Hi) as [X|[_ X]]; [|congruence].
@@ -1333,16 +1349,16 @@ Proof. split; vm_compute; reflexivity. Qed.
 Example target_equals_table_nonvacuous :
   reach Converge.ex_cf ex_final /\ quiescent (fst ex_final) (snd ex_final) /\
   live_objs (e_tab (fst ex_final)) = [(1, 1, 2); (3, 3, 2); (4, 4, 2)] /\
-  slot_of (e_tab (fst ex_final)) 2 = Some (Dead (mkObj 2 2 Done 5) 6) /\
+  slot_of (e_tab (fst ex_final)) 2 = Some (Dead (mkObj 2 2 Done 5 0) 6) /\
   aget 1 (e_target (fst ex_final)) = Some 1 /\ aget 2 (e_target (fst ex_final)) = None /\
   aget 3 (e_target (fst ex_final)) = Some 3 /\ aget 4 (e_target (fst ex_final)) = Some 4.
 Proof.
   split; [exact ex_final_reach|]. split; [exact ex_final_quiescent|].
   split; [vm_compute; reflexivity|].
-  assert (S2 : slot_of (e_tab (fst ex_final)) 2 = Some (Dead (mkObj 2 2 Done 5) 6)) by (vm_compute; reflexivity).
-  assert (S1 : slot_of (e_tab (fst ex_final)) 1 = Some (Live (mkObj 1 1 Done 9) 10)) by (vm_compute; reflexivity).
-  assert (S3 : slot_of (e_tab (fst ex_final)) 3 = Some (Live (mkObj 3 3 Done 7) 8)) by (vm_compute; reflexivity).
-  assert (S4 : slot_of (e_tab (fst ex_final)) 4 = Some (Live (mkObj 4 4 Done 8) 9)) by (vm_compute; reflexivity).
+  assert (S2 : slot_of (e_tab (fst ex_final)) 2 = Some (Dead (mkObj 2 2 Done 5 0) 6)) by (vm_compute; reflexivity).
+  assert (S1 : slot_of (e_tab (fst ex_final)) 1 = Some (Live (mkObj 1 1 Done 9 0) 10)) by (vm_compute; reflexivity).
+  assert (S3 : slot_of (e_tab (fst ex_final)) 3 = Some (Live (mkObj 3 3 Done 7 0) 8)) by (vm_compute; reflexivity).
+  assert (S4 : slot_of (e_tab (fst ex_final)) 4 = Some (Live (mkObj 4 4 Done 8 0) 9)) by (vm_compute; reflexivity).
   split; [exact S2|].
   pose proof (target_equals_table _ _ ex_final_reach ex_final_quiescent) as T.
   split; [exact (T 1 _ S1)|]. split; [exact (T 2 _ S2)|]. split; [exact (T 3 _ S3)|exact (T 4 _ S4)].
